@@ -236,7 +236,9 @@ func buildConstraint(f *ast.File) string {
 			t := cm.Text
 			if strings.HasPrefix(t, "//go:build ") && cm.Pos() < f.Package {
 				c = strings.TrimSpace(strings.TrimPrefix(t, "//go:build "))
-			} else if strings.HasPrefix(t, "//go:") && !strings.HasPrefix(t, "//go:generate") {
+			} else if strings.HasPrefix(t, "//go:embed") || strings.HasPrefix(t, "//go:linkname") || strings.HasPrefix(t, "//go:cgo_") {
+				// (other directives - noinline, nosplit, norace … - only tune
+				// code generation and are dropped with the comments)
 				die("file with compiler directive %q needs a rewrite; not supported", t)
 			}
 		}
